@@ -84,6 +84,12 @@ CONSUMERS = {
     "flatten-deep": "(flatten (nest-array D))",
     "format-p": '(string/format "%p" (nest-tuple D))',
     "format-j": '(string/format "%j" (nest-array D))',
+    "format-j-table-chain": '(string/format "%j" (nest-table D))',
+    "format-j-struct-chain": '(string/format "%j" (nest-struct D))',
+    "format-j-cyclic-table": '(def t @{}) (var c t) (repeat (min D 50) (def n @{}) (put c :next n) (set c n)) (put c :next t) (string/format "%j" t)',
+    "format-p-table-chain": '(string/format "%p" (nest-table D))',
+    "format-n-deep": '(string/format "%n %N" (nest-mixed D) (nest-array D))',
+    "format-M-deep": '(string/format "%M" (nest-table D))',
     "format-q": '(string/format "%q" (nest-mixed D))',
     "format-m": '(string/format "%m" (nest-table D))',
     "format-v": '(string/format "%v" (nest-struct D))',
